@@ -62,7 +62,7 @@ def gen(rng, tier):
       ops.append({'op': 'clear', 'm': m})
     elif rng.random() < 0.5:
       ops.append({'op': 'insert', 'm': m, 'name': rng.choice(
-          ['', 'a..b', 'a b', '1a', 'a.', '.a'])})
+          ['', 'a..b', 'a b', '1a', 'a.', '.a', 'a.b\n', 'c\n'])})
     else:
       # a rejected name whose trailing components are fine (and may run along
       # the names that are stored)
@@ -139,7 +139,7 @@ def part_a(case, v, log, stats):
     nested = any(a != b and a.endswith('.' + b) for a in mod for b in mod)
     if k == 'insert':
       name = op['name']
-      valid = bool(name) and all(
+      valid = bool(name) and not name.endswith('\n') and all(
           p and (p[0].isalpha() or p[0] == '_') and
           p.replace('_', 'a').isalnum() for p in name.split('.'))
       serial[0] += 1
